@@ -29,4 +29,19 @@ def obligations():
                       harness=mh, includes=['wf.h', 'view.h'], copies=[TK], defines=d, inline_vec=INLINE, unwind=6, covers=2, timeout=900, quick_for=['C09', 'C01'],
                       bounds=dict(vertices=2, edges=2, faces=2, cells=2, face_valence=2, cell_valence=2, incident_list=2),
                       note='real reorder_incident_halffaces against its caller-side contract; bottom-up kinds enabled: %s' % (on or 'none')))
+    # rotational order (C09) on a fan of up to 3 faces and 2 cells around ONE edge
+    for nf in (2, 3):
+        n = 'reorder.order.fan%d' % nf
+        d = mcaps(v=1, e=1, f=nf, c=2, fv=2, cv=3, out=2, inc=nf)
+        d.update(CFG_V=0, CFG_E=1, CFG_F=1, CFG_DEFERRED=1, CFG_FAST=0)
+        post = ['  int L0[3] = {0, 0, 0}, L1[3] = {0, 0, 0}; int n0 = (int)INCN(&o, 0); for (int i = 0; i < 3; i++) if (i < n0) { L0[i] = INC(&o, 0, i); L1[i] = INC(&m, 0, i); }',
+                A('wf(&m)', 'wf_preserved', n),
+                A('n0 > 3 || !spec_some_arrangement_ordered(&o, 0, L0, n0) || spec_ordered3(&m, 0, L1, n0)', 'halffaces_in_rotational_order_whenever_the_fan_admits_one (boundary halfface last, each followed by the opposite of its in-cell neighbour)', n),
+                A('n0 > 3 || !spec_ordered3(&m, 0, L1, n0) || g_k < 0 || g_k >= n0 || INC(&m, 1, g_k) == (INC(&m, 0, n0 - 1 - g_k) ^ 1)', 'opposite_halfedge_reports_the_mirrored_reverse_sequence', n)]
+        mh = MeshHarness(args='  int h = 0;', pre_assume='  __CPROVER_assume(m.edges_.size == 1 && !EDEL(&m, 0));',
+                         snap='  witness(&o, h, 0, 0, 0);\n  COVER(INCN(&m, 0) == %d && m.cells_.size == 2 && !CDEL(&m, 0) && !CDEL(&m, 1), "full fan with two live cells");\n  COVER(INCN(&m, 0) >= 2, "at least two halffaces");' % nf,
+                         call='  { struct EH hh; hh.idx_ = 0; TopologyKernel__reorder_incident_halffaces(&m, hh); }', post='\n'.join(post), op='reorder')
+        obs.append(Ob(id='C09.' + n, props=['C09'], quick_for=[], mem_gb=40, tu='kernel', tier='B', roots=[TK + '::reorder_incident_halffaces'], harness=mh,
+                      includes=['wf.h', 'view.h', 'add_spec.h', 'query_spec.h', 'reorder_spec.h'], copies=[TK], defines=d, unwind=2 * max(nf, 3) + 2, covers=2, timeout=3000,
+                      bounds=dict(edges=1, faces=nf, cells=2, face_valence=2, cell_valence=3, incident_list=nf), note='rotational order after reorder_incident_halffaces on any WF state with one edge, up to %d faces around it and two cells' % nf))
     return obs
